@@ -40,6 +40,7 @@ static Ex pExpr(const Toks &t, size_t &i)
 	else if (e.op == "slx") { e.op = "sl"; e.spell = t.at(i++); e.pw = atoi(t.at(i++).c_str()); e.kids.push_back(pExpr(t, i)); e.a = atoi(t.at(i++).c_str()); e.b = atoi(t.at(i++).c_str()); }
 	else if (e.op == "bitx") { e.op = "bit"; e.spell = t.at(i++); e.pw = atoi(t.at(i++).c_str()); e.kids.push_back(pExpr(t, i)); e.a = atoi(t.at(i++).c_str()); }
 	else if (e.op == "dpartx") { e.op = "dpart"; e.spell = t.at(i++); e.a = atoi(t.at(i++).c_str()); e.b = atoi(t.at(i++).c_str()); e.kids.push_back(pExpr(t, i)); e.kids.push_back(pExpr(t, i)); }
+	else if (e.op == "wsc") { e.kids.push_back(pExpr(t, i)); e.kids.push_back(pExpr(t, i)); }
 	else if (e.op == "muxw") { e.a = atoi(t.at(i++).c_str()); e.kids.push_back(pExpr(t, i)); e.kids.push_back(pExpr(t, i)); }
 	else if (e.op == "dsl" || e.op == "dbit" || e.op == "dpart") { e.a = atoi(t.at(i++).c_str()); e.b = atoi(t.at(i++).c_str()); e.kids.push_back(pExpr(t, i)); e.kids.push_back(pExpr(t, i)); }
 	else die("expr token " + e.op);
@@ -219,6 +220,12 @@ struct Builder {
 			UInt *b = vecRef(e.kids[0], keep); UInt *i = vecRef(e.kids[1], keep);
 			Bit &al = (*b)[*i];
 			r.b.reset(new Bit(al));
+		} else if (e.op == "wsc") {
+			// a helper whose evaluation opens and closes a conditional scope (like abs(), muxWord(), shr() do
+			// internally) but whose value is its second operand in every situation: r = v; IF (c) r = v;
+			Val c = eval(e.kids[0]); Val v = eval(e.kids[1]);
+			if (v.b) { r.b.reset(new Bit(*v.b)); IF (*c.b) { const Bit &rv = *v.b; *r.b = rv; } }
+			else { r.u.reset(new UInt(*v.u)); IF (*c.b) { const UInt &rv = *v.u; *r.u = rv; } }
 		} else if (e.op == "muxw") {
 			// a library helper that uses IF internally (SignalMiscOp.cpp muxWord)
 			Val sel = eval(e.kids[0]); Val arr = eval(e.kids[1]);
@@ -289,9 +296,9 @@ struct Builder {
 					Val c = eval(br.c);
 					IF (*c.b) { runBlock(br.body); popVars(mark); }
 				} else if (br.type == 1) {
-					Val c = eval(br.c);
-					// ELSEIF(x) without its leading  else { HCL_ASSERT(false); }
-					if (gtry::ConditionalScope ___condScope{ConditionalScope::ElseCase{}, *c.b}) { runBlock(br.body); popVars(mark); }
+					// ELSEIF(x) without its leading  else { HCL_ASSERT(false); } -- x is evaluated INSIDE the braced
+					// initializer list, after ElseCase{}, exactly like the macro does (x may open scopes itself)
+					if (gtry::ConditionalScope ___condScope{ConditionalScope::ElseCase{}, *eval(br.c).b}) { runBlock(br.body); popVars(mark); }
 				} else if (br.type == 3) {
 					// ELSE IF (x) { .. }  written with a space: the IF scope lives inside the ELSE scope
 					if (gtry::ConditionalScope ___condScope{ConditionalScope::ElseCase{}}) {
@@ -336,7 +343,7 @@ struct Taint {
 	std::vector<bool> haveFinal;
 
 	TV *find(int id) { for (size_t i = env.size(); i-- > 0;) if (env[i].id == id) return &env[i]; return nullptr; }
-	uint64_t te(const Ex &e) { uint64_t t = 0; if (e.op == "s") { TV *v = find(e.a); if (v) t |= v->t; } for (const Ex &k : e.kids) t |= te(k); return t; }
+	uint64_t te(const Ex &e) { uint64_t t = 0; if (e.op == "wsc") return te(e.kids[1]); if (e.op == "s") { TV *v = find(e.a); if (v) t |= v->t; } for (const Ex &k : e.kids) t |= te(k); return t; }
 	void leave(size_t mark) {
 		for (size_t i = mark; i < env.size(); i++) if (env[i].dk >= 0) {
 			if ((int)finalT.size() <= env[i].dk) { finalT.resize(env[i].dk + 1, 0); haveFinal.resize(env[i].dk + 1, false); }
@@ -419,6 +426,7 @@ struct Oracle {
 		if (e.op == "eq") { OV a = ev(e.kids[0]), b = ev(e.kids[1]); return OV{a.v == b.v ? 1ull : 0ull, 1}; }
 		if (e.op == "sl") { OV a = ev(e.kids[0]); if (e.a + e.b > a.w) throw Undef(); return OV{(a.v >> e.a) & mask(e.b), e.b}; }
 		if (e.op == "bit") { OV a = ev(e.kids[0]); if (e.a >= a.w) throw Undef(); return OV{(a.v >> e.a) & 1, 1}; }
+		if (e.op == "wsc") return ev(e.kids[1]);
 		if (e.op == "muxw") { OV sel = ev(e.kids[0]), a = ev(e.kids[1]); int h = a.w / 2; return OV{(sel.v & 1) ? (a.v >> h) & mask(h) : a.v & mask(h), h}; }
 		if (e.op == "dsl" || e.op == "dbit" || e.op == "dpart") {
 			OV a = ev(e.kids[0]), i = ev(e.kids[1]);
